@@ -498,9 +498,10 @@ func (t *TunnelEncapSubTLVSRv6BSID) DecodeFromBytes(data []byte) error {
 }
 
 func (t *TunnelEncapSubTLVSRv6BSID) Serialize() ([]byte, error) {
-	buf := make([]byte, t.Length)
+	sid := t.BSID.Serialize()
+	buf := make([]byte, 2+len(sid))
 	buf[0] = t.Flags
-	copy(buf[2:t.BSID.Len()], t.BSID.Serialize())
+	copy(buf[2:], sid)
 	return t.TunnelEncapSubTLV.Serialize(buf[:])
 }
 
